@@ -85,6 +85,11 @@ func fixpoint(data []byte) (verdict string, decoded bool) {
 	}) != nil {
 		return "", false // the writer rejects this object (outside what the format can carry)
 	}
+	// sizes stay within what a count field can represent (DESIGN §7, as for the builders): an event's attribute table
+	// travels behind a one-byte count that includes the three or four reserved attributes the writer adds itself
+	if ep, ok := p.(*pack.EventPack); ok && ep.Attr != nil && ep.Attr.Size() > 255 {
+		return "", false
+	}
 	var q pack.Pack
 	var left int32
 	if pv := fuzzRecover(func() {
